@@ -673,7 +673,9 @@ def _close(exp: float, got: float, tol: str) -> bool:
         return diff <= 5.0000001e-6 * max(abs(exp), abs(got)) or diff <= 1e-300
     if tol == 'angle':
         diff = min(diff, abs(360.0 - diff))
-    return diff <= 5.0000001e-7
+    # "within 5e-7": the exported text has 6 decimals, i.e. an error of at most 5e-7 in exact arithmetic; the double
+    # nearest to that text, and the subtraction itself, add a few units in the last place of the value
+    return diff <= 5e-7 + 4 * math.ulp(max(abs(exp), abs(got), 1.0))
 
 
 def _short(val: Any) -> str:
